@@ -86,7 +86,9 @@ L2_PLAN = {
     "C08": [("mixed", 25, 5, "httpfaults"), ("inplace", 150, 30, "httpfaults")],
     "C05": [("crash", 12, 2, "faults"), ("seeds", 250, 50, "faults"), ("mixed", 70, 14, "faults")],
 }
-L2_CAT = {"MAXRUN": "C07", "RESUME": "C08", "RETRY": "C08", "W0": "C13", "W1": "C13", "W2": "C13", "W3": "C13", "W4": "C13", "FETCH": "C06", "CRASH": "C05", "C16": "C16"}
+L2_CAT = {"MAXRUN": "C07", "RESUME": "C08", "RETRY": "C08", "W0": "C13", "W1": "C13", "W2": "C13", "W3": "C13", "W4": "C13", "FETCH": "C06", "CRASH": "C05", "C16": "C16",
+          # accounting rules (the numbers bita reports): part of the specification, outside the 17 properties - counted in evidence, never a VIOLATION
+          "ACCT": "beyond-the-list"}
 
 
 def run_l2(prop, tier, out, workdir):
